@@ -3,6 +3,9 @@
 worktree of /repo HEAD, confirm the demonstration (passes clean, fails patched) and run the quick check(s)
 against the patched tree (VERIF_REPO).  Prints one line per step; removes the worktree afterwards."""
 import json, os, subprocess, sys, shutil, time
+record = "--record" in sys.argv
+if record:
+    sys.argv.remove("--record")
 sid = sys.argv[1]
 d = f"/verif/seeded/{sid}"
 meta = json.load(open(f"{d}/meta.json"))
@@ -16,6 +19,15 @@ assert r.returncode == 0, r.stdout
 res = {"seed": sid, "repo_head": sh("git -C /repo rev-parse --short HEAD").stdout.strip()}
 try:
     env = dict(os.environ, PYTHONPATH=wt)
+    TESTS = {"C01": "modulators", "C02": "modulators", "C03": "channels", "C04": "mimo", "C05": "simulations", "C06": "simulations",
+             "C07": "simulations", "C08": "channels", "C10": "ia", "C11": "channels", "C12": "comm", "C13": "channels", "C14": "channels",
+             "C15": "modulators", "C16": "modulators", "C17": "simulations", "C18": "reference_signals", "C19": "cell", "C20": "util"}
+    tmod = f"tests/{TESTS[meta['property']]}_package_test.py"
+    def run_tests():
+        r = subprocess.run(["/venv/bin/python", "-m", "pytest", "-q", "-p", "no:cacheprovider", "-x", "--timeout=600", tmod], cwd=wt,
+                           stdout=subprocess.PIPE, stderr=subprocess.STDOUT, text=True, timeout=1200)
+        return r.stdout.strip().splitlines()[-1]
+    res["tests_clean"] = run_tests()
     r0 = subprocess.run(["/venv/bin/python", f"{d}/demo.py"], env=env, cwd="/tmp", stdout=subprocess.PIPE, stderr=subprocess.STDOUT, text=True, timeout=600)
     res["demo_clean_exit"] = r0.returncode
     ra = sh(f"git -C {wt} apply {d}/patch.diff")
@@ -24,6 +36,7 @@ try:
         print(ra.stdout)
     r1 = subprocess.run(["/venv/bin/python", f"{d}/demo.py"], env=env, cwd="/tmp", stdout=subprocess.PIPE, stderr=subprocess.STDOUT, text=True, timeout=600)
     res["demo_patched_exit"] = r1.returncode
+    res["tests_patched"] = run_tests()
     for p in props:
         t = time.time()
         rc = subprocess.run(["./check", p, "--tier", os.environ.get("SEED_TIER", "quick")], cwd="/verif", env=dict(os.environ, VERIF_REPO=wt),
@@ -33,3 +46,6 @@ try:
 finally:
     sh(f"git -C /repo worktree remove --force {wt}")
 print(json.dumps(res, indent=1))
+if record:
+    meta["confirmed"] = res
+    json.dump(meta, open(f"{d}/meta.json", "w"), indent=1)
